@@ -94,6 +94,9 @@ CH = {
     'in_item_nopush': ('<dtml-in seq no_push_item><dtml-var "_[\'sequence-item\'].pub">,</dtml-in>', lambda s, c: dict(seq=[Item(secret='x', pub='p0'), Item(secret='y', pub=s, forbidden=True)]), (), ()),
     'in_item_nopush_name': ('<dtml-in seq no_push_item><dtml-var sequence-item>,</dtml-in>', lambda s, c: dict(seq=[Item(secret='x', pub='p0'), Item(secret='y', pub=s, forbidden=True)]), (), ()),
     'in_item_nopush_batch': ('<dtml-in seq no_push_item size=4><dtml-var sequence-item>,</dtml-in>', lambda s, c: dict(seq=[Item(secret='x', pub='p0'), Item(secret='y', pub=s, forbidden=True)]), (), ()),
+    'with_only_in_item': ('<dtml-with o only><dtml-in seq><dtml-var pub>,</dtml-in></dtml-with>', lambda s, c: dict(o=Item(pub='p', seq=[Item(pub='p0'), Item(pub=s, forbidden=True)])), (), ()),
+    'with_only_expr_item': ('<dtml-with o only><dtml-var "d[\'secret\']"></dtml-with>', lambda s, c: dict(o=Item(pub='p', d={'secret': s})), (), ('secret',)),
+    'with_in_item': ('<dtml-with o><dtml-in seq><dtml-var pub>,</dtml-in></dtml-with>', lambda s, c: dict(o=Item(pub='p', seq=[Item(pub='p0'), Item(pub=s, forbidden=True)])), (), ()),
     'in_attr': ('<dtml-in seq><dtml-var secret>,</dtml-in>', lambda s, c: dict(seq=two(s, c)), ('secret',), ()),
     'fmt_method': ('<dtml-var o fmt=secretm>', lambda s, c: dict(o=Item(secret=s, pub='p')), ('secretm',), ()),
     'tree_branches': ('<dtml-tree root branches=kids><dtml-var pub></dtml-tree>', lambda s, c: dict(root=Item(pub='r', _kids=[Item(pub=s, nid='n1', _kids=[])]), URL='u', RESPONSE=Response(), expand_all=1), ('kids',), ()),
